@@ -121,3 +121,12 @@ Check (C16_encoder_stream_read_back : forall o L items trailer bytes fuel,
   subset_stream o L items trailer = Some bytes -> Forall item_ok items -> syncless trailer = true ->
   (length items < fuel)%nat ->
   exists out, stream_read_all fuel bytes [] = (out, EndErr EEof) /\ Forall2 item_hdr_ok items out).
+Check (C02_encoder_file_valid : forall o L si others blocks bytes,
+  enc_blocks o L (si_rate si) (si_bps si) 0 blocks = Some bytes ->
+  si_ok si -> blocks_ok others ->
+  Forall (block_ok si (si_bps si)) blocks ->
+  N.of_nat (length blocks) <= MAX_FRAME_NUMBER + 1 ->
+  full_but_last si blocks ->
+  16 <= si_min_bs si -> si_min_bs si <= si_max_bs si ->
+  (si_total si = 0 \/ blocks_samples blocks = si_total si) ->
+  spec_stream (file_of si others bytes) = Ok (si, blocks)).
